@@ -8,6 +8,7 @@ trap 'rm -rf "$S"' EXIT
 go build -tags verif -o "$S/driver" ./cmd/driver || exit 1
 cp /verif/spec/*.tla "$S"/ && cd "$S" || exit 1
 for m in *.tla; do
+  case "$m" in *Proof.tla) continue;; esac   # proof modules EXTEND TLAPS (tlapm's library, not on SANY's path); tlapm parses them
   if ! tla-sany "$m" > sany.log 2>&1; then echo "SANY failed on $m"; cat sany.log; exit 1; fi
 done
 echo "setup ok"
